@@ -9,7 +9,7 @@ HERE = os.path.dirname(os.path.dirname(os.path.abspath(__file__)))
 TECH = "deterministic simulation with fault injection: seeded search over schedules/faults on the real code, oracle = "
 
 CHECKS = {
-    "C01": ("fault_enumeration", "6 C01", TECH + "endpoint-state snapshot equality around every attacker datagram + no attacker payload delivered",
+    "C01": ("fault_enumeration", "6 C01", TECH + "endpoint-state snapshot equality around every attacker datagram + no attacker payload delivered + a connection keeps its first session key and leaves the pools only for a cause",
             "complete forge/flip/truncate/extend/retype grids enumerated at sampled points of simulated connection histories, both directions; sampled histories, not all"),
     "C02": ("exploration", "6 C02", TECH + "client adopts a key only from a payload the real root key signed; server promotes only on a challenge that opens under the issued key/token",
             "seeded MITM mutations/substitutions and loss/dup/reorder of the three handshake datagrams over many derived key pairs"),
@@ -27,7 +27,7 @@ CHECKS = {
             "network-generated arrival histories incl. ring wrap; pure for-all-pairs arithmetic only on pairs histories produce"),
     "C09": ("exploration", "6 C09", TECH + "independent reference codec decodes every emitted datagram and must reproduce the packet seen at _build_packet; size/first-fit maximality/conservation invariants",
             "every MTU class, bursts of hundreds of tiny messages, boundary lengths, resend+new mixes"),
-    "C10": ("exploration", "6 C10", TECH + "per-client regular expression connect.message*.disconnect over the handler event history, single thread, distinct tokens, bounded liveness of disconnect",
+    "C10": ("exploration", "6 C10", TECH + "per-client regular expression connect.message*.disconnect over the handler event history, single thread, distinct tokens, bounded liveness of disconnect (peer, silence, server-initiated, shutdown), misbehaving protocol-complete clients",
             "multi-client interleavings, handler exceptions, reconnects from same address, shutdown at any tick, forced token collisions, three entry points"),
     "C11": ("exploration", "6 C11", TECH + "loop thread alive, honest echo within bound, zero processing/reply for block-listed sources, bytes out <= bytes in per unauthenticated address at every instant",
             "bulk hostile datagrams of all generators from any claimed source interleaved with honest echo traffic"),
